@@ -42,6 +42,13 @@ def oracle(root, res, rs, before, after):
     return None
 
 
+def to_float64_weights(root):
+    for n in S.bfs_order(root):
+        if isinstance(n, Sum):
+            n.weights = np.asarray(n.weights, dtype=np.float64)
+    return root
+
+
 def one_case(ctx, name, root, rs):
     assign_ids(root)
     table, order, index, _ = S.export_net(root)
@@ -54,7 +61,9 @@ def one_case(ctx, name, root, rs):
     ctx.case(name, nontrivial_key=key if len(table) > 1 else None,
              sample=dict(name=name, nodes=len(table), kinds=S.describe(order), shared=shared))
     ctx.count('shared' if shared else 'tree-shaped')
-    rep = dict(kind='c09', table=table_with_py(table, order))
+    rep = dict(kind='c09', table=table_with_py(table, order), weights_dtype='float64' if 'float64-weights' in name else 'float32')
+    if 'float64-weights' in name:
+        ctx.count('float64-weight-circuits')
     before = S.export_net(root)[0]
     try:
         res = prune(root, copy=True)
@@ -103,6 +112,11 @@ def cases(ctx, n):
         root = R.gen(rs, list(range(nv)), int(rs.randint(2, 6)), {}, card, share=float(rs.choice([0.0, 0.3, 0.6])))
         if not isinstance(root, (Sum, Product)):
             continue
+        if k % 3 == 0:
+            # mixture weights kept in double precision (what `Sum(weights=np.array([...]))` stores): same circuit, other dtype
+            to_float64_weights(root)
+            yield f'rand{k}-float64-weights', root, rs
+            continue
         yield f'rand{k}', root, rs
 
 
@@ -116,6 +130,8 @@ def run(ctx):
 
 def replay(rep):
     root, order = build_from_table(rep['replay']['table'])
+    if rep['replay'].get('weights_dtype') == 'float64':
+        to_float64_weights(root)
     before = S.export_net(root)[0]
     res = prune(root, copy=True)
     after = S.export_net(root)[0]
